@@ -61,4 +61,10 @@ theorem dir_extent_roundtrip (items : List DirItem) (rootLen : Nat) (joliet : Bo
     (hfit : ∀ r ∈ finalRecs items rootLen joliet dirLBA filesLBA k it, r.extLoc < 2 ^ 32 ∧ r.extLen < 2 ^ 32) :
     decodeRecs (encodeRecs (finalRecs items rootLen joliet dirLBA filesLBA k it)) = finalRecs items rootLen joliet dirLBA filesLBA k it :=
   records_roundtrip _ (finalRecs_ok items rootLen joliet dirLBA filesLBA k it hfit)
+/-- **decode ∘ encode = id for path tables**, both byte orders: read with the size the volume descriptor
+    announces, a path table yields exactly the entries (location, parent number, identifier) written. -/
+theorem path_table_roundtrip (t : List PtEntry) (hok : ∀ e ∈ t, PtOk e) (big : Bool) :
+    decodePt (encodePt t big) (t.map (fun e => (e.encode big).length)).sum big = t :=
+  decodePt_encodePt t hok big
+
 end Ps3.Props.C08
